@@ -8,8 +8,11 @@
      C l1 c1 l2 c2 | text cps | nt    -> client_apply (spec); "N" or "O cps"
      A kind a b | text cps | cs cps   -> Suggestion::apply;   "P" or "O cps"
      T x                              -> `x as u32` of a usize x (decimal, < 2^62): x mod 2^32
+     K i | a b u a b u ...            -> Document::get_token_at_char_index(i) on the token vector (span, kind == Url):
+                                         "N" or "a b u" of the token found (Model/C08TokenAt.v: token_at)
+     B i | a b u a b u ...            -> slice::binary_search_by under the same comparator: "O k" / "E k"
      H | docs | foreign | ops         -> a history on ONE DocumentState (Model/C08DocState.v: drv_run)
-         docs    = doc ; doc ; ...     doc = id , text cps , lint / lint / ... , url table "i a b i a b ..." (get_token_at_char_index(i) is the Url token [a,b))
+         docs    = doc ; doc ; ...     doc = id , text cps , lint / lint / ... , token vector "a b u a b u ..." (span [a,b), u = 1 for TokenKind::Url; in the parser's order)
                    lint = start end prio spell tag key : sug : sug ...   sug = kind cps (0 ReplaceWith 1 InsertAfter 2 Remove)
          foreign = docid start end prio tag key ; ...   (key of a lint against a document it does not belong to)
          ops     = D id ; G sev ; A l1 c1 l2 c2 force_stable ; I docid lintidx ; ...
@@ -38,12 +41,13 @@ let parse_lint s =
               lspell = (sp = 1); ltag = n_of_int tag }, n_of_int key)
        | _ -> failwith "lint")
   | [] -> failwith "lint"
-let rec triples = function i :: a :: b :: r -> (n i, { sstart = n a; send = n b }) :: triples r | _ -> []
+let rec toks = function a :: b :: u :: r -> { tspan = { sstart = n a; send = n b }; turl = (u = 1) } :: toks r | _ -> []
+let rec raw_toks = function a :: b :: u :: r -> ((n a, n b), u = 1) :: raw_toks r | _ -> []
 let parse_doc s =
   match split_on ',' s with
   | [id; t; lints; urls] ->
       { dd_id = n (int_of_string id); dd_text = text_of_line t;
-        dd_lints = List.map parse_lint (nonempty (split_on '/' lints)); dd_urls = triples (ints_of_line urls) }
+        dd_lints = List.map parse_lint (nonempty (split_on '/' lints)); dd_tokens = toks (ints_of_line urls) }
   | _ -> failwith "doc"
 let parse_foreign s =
   match ints_of_line s with
@@ -82,7 +86,7 @@ let run_history docs foreign ops =
   let docs = List.map parse_doc (nonempty (split_on ';' docs)) in
   let foreign = List.map parse_foreign (nonempty (split_on ';' foreign)) in
   let ops = List.map (parse_op docs) (nonempty (split_on ';' ops)) in
-  let d0 = { dd_id = n 0; dd_text = []; dd_lints = []; dd_urls = [] } in
+  let d0 = { dd_id = n 0; dd_text = []; dd_lints = []; dd_tokens = [] } in
   String.concat " ; " (List.filter_map show_answer (drv_run foreign d0 ops))
 let () =
   iter_lines (fun l ->
@@ -147,6 +151,22 @@ let () =
                (match run_apply (n k) (text_of_line cs) (n a) (n b) (text_of_line t) with
                 | None -> "P"
                 | Some r -> String.trim ("O " ^ line_of_text r))
+           | _ -> "?")
+      | 'K', [hd; tk] ->
+          (match ints_of_line hd with
+           | [ix] ->
+               (match run_token_at (raw_toks (ints_of_line tk)) (n ix) with
+                | None -> "P"
+                | Some None -> "N"
+                | Some (Some ((a, b), u)) -> Printf.sprintf "%d %d %d" (i a) (i b) (if u then 1 else 0))
+           | _ -> "?")
+      | 'B', [hd; tk] ->
+          (match ints_of_line hd with
+           | [ix] ->
+               (match run_binary_search (raw_toks (ints_of_line tk)) (n ix) with
+                | None -> "P"
+                | Some (true, k) -> Printf.sprintf "O %d" (i k)
+                | Some (false, k) -> Printf.sprintf "E %d" (i k))
            | _ -> "?")
       | 'T', [x] -> string_of_int (int_of_n (run_as_u32 (n_of_int (int_of_string x))))
       | 'H', [_; docs; foreign; ops] -> (try run_history docs foreign ops with _ -> "?")
